@@ -439,7 +439,7 @@ func hashStr(s string) uint64 {
 }
 
 func ruleText(prop string) string {
-	return "messages rendered from sshd's format strings with generated field values (account names incl. unicode and words of the message, IPv4/IPv6/zone ids/host names, ports, all key types, SHA256/MD5 fingerprints, key IDs with spaces/parentheses/'serial', serials to 2^64-1, paths with spaces), " +
+	return "messages rendered from sshd's format strings with generated field values (account names incl. unicode and words of the message, IPv4/IPv6/zone ids/host names, ports, all key types and lower-case/underscore/'ssh'-prefixed names of the class [A-Za-z0-9_-], SHA256/MD5 fingerprints incl. '=' padding, key IDs with spaces/parentheses/'serial'/'(serial N)'/' from A port N'/partial ' ssh2: ' fragments (domain no_ssh_frag of C06_accepted_cert), forged fragments in the account of accepted lines, serials to 2^64-1, paths with spaces), " +
 		"hostile names (C17), arbitrary bytes and systematic mutations (C11), PID tokens (valid, signed, overflowing, empty, non-numeric), write failure and cancelled hand-off modes (C05), framed delivery through SyslogIngester.Process (C07); " +
 		"each case runs on the real processor with a private counter registry; the " + prop + " oracle is evaluated from the generated fields; non-trivial = the case makes the implementation write an event; distinct by (token, line, mode)"
 }
